@@ -10,6 +10,7 @@ import (
 	"net"
 	"sort"
 	"strings"
+	"sync"
 	"testing"
 	"time"
 
@@ -32,8 +33,9 @@ import (
 //                  empty secret)
 //   tunnel state   none | waiting (victim source bridge waits locally) | served (victim
 //                  source+target bridged) | remote (victim bridge waits on another node)
-//   mapping state  active | revoked | expired | inactive | missing  (reached through the
-//                  real services AFTER the victim's tunnel was set up)
+//   mapping state  active | revoked | revoked-reactivated (revoked, then status set back to
+//                  active) | expired | inactive | missing  (reached through the real
+//                  services AFTER the victim's tunnel was set up)
 //   identity       unauth | unauth-p1 (phase-1 of the handshake claiming the listen
 //                  client's id, never answered) | listen | target | other
 //   credential     id | id+secret | id+wrong | resume (garbage token) | none
@@ -64,7 +66,7 @@ func (c c04Cell) key() string {
 var (
 	c04Kinds      = []string{"keyed", "conncode"}
 	c04Tunnels    = []string{"none", "waiting", "served"}
-	c04MapStates  = []string{"active", "revoked", "expired", "inactive", "missing"}
+	c04MapStates  = []string{"active", "revoked", "revoked-reactivated", "expired", "inactive", "missing"}
 	c04Identities = []string{"unauth", "unauth-p1", "listen", "target", "other"}
 	c04Creds      = []string{"id", "id+secret", "id+wrong", "resume", "none"}
 )
@@ -146,10 +148,16 @@ type c04World struct {
 	vTFirst bool
 	rq      *c04End
 	seq     int
+	mu      sync.Mutex
 	trace   []string
+	jitter  [2]time.Duration // racing: delays of the victim / the requester
 }
 
-func (w *c04World) logf(f string, a ...any) { w.trace = append(w.trace, fmt.Sprintf(f, a...)) }
+func (w *c04World) logf(f string, a ...any) {
+	w.mu.Lock()
+	w.trace = append(w.trace, fmt.Sprintf(f, a...))
+	w.mu.Unlock()
+}
 
 func (w *c04World) close() {
 	for i := len(w.cleanup) - 1; i >= 0; i-- {
@@ -347,6 +355,13 @@ func (w *c04World) setMapState() error {
 		return nil
 	case "revoked":
 		return w.n.CCS.RevokeMapping(w.mapID, w.L.ClientID, "verif")
+	case "revoked-reactivated":
+		// revoked by a party, afterwards the status field is set back to active (what the
+		// management API's status update does): still a revoked mapping
+		if err := w.n.CCS.RevokeMapping(w.mapID, w.T.ClientID, "verif"); err != nil {
+			return err
+		}
+		return w.n.CC.UpdatePortMappingStatus(w.mapID, models.MappingStatusActive)
 	case "expired":
 		m, err := w.n.CC.GetPortMapping(w.mapID)
 		if err != nil {
@@ -384,6 +399,10 @@ func (w *c04World) checkMapState() error {
 	case "revoked":
 		if !m.IsRevoked {
 			return fmt.Errorf("mapping not revoked")
+		}
+	case "revoked-reactivated":
+		if !m.IsRevoked || m.Status != models.MappingStatusActive {
+			return fmt.Errorf("mapping not revoked+status-active")
 		}
 	case "expired":
 		if !m.IsExpired() {
@@ -468,14 +487,15 @@ func (w *c04World) locate(marker string, expectConsumer bool) string {
 }
 
 type c04Obs struct {
-	Ack        string   `json:"ack"`
-	SendErr    string   `json:"send_err"`
-	Attached   string   `json:"attached_as"`
-	Leaked     []string `json:"victim_markers_read_by_requester"`
-	Injected   []string `json:"victims_that_read_requester_marker"`
-	PeerData   bool     `json:"requester_received_peer_data"`
-	Trace      []string `json:"trace"`
-	SetupError string   `json:"setup_error,omitempty"`
+	Ack              string   `json:"ack"`
+	SendErr          string   `json:"send_err"`
+	Attached         string   `json:"attached_as"`
+	Leaked           []string `json:"victim_markers_read_by_requester"`
+	Injected         []string `json:"victims_that_read_requester_marker"`
+	PeerData         bool     `json:"requester_received_peer_data"`
+	VictimBridgeSeen bool     `json:"racing_requester_met_victim_bridge,omitempty"`
+	Trace            []string `json:"trace"`
+	SetupError       string   `json:"setup_error,omitempty"`
 }
 
 func (w *c04World) requesterRequest() *packet.TunnelOpenRequest {
@@ -579,9 +599,27 @@ func c04RunCell(t *testing.T, run *vk.Run, cell c04Cell, idx int) (obs c04Obs, o
 		}
 	}
 	req := w.requesterRequest()
-	w.open(rq, req)
+	if cell.Tunnel == "racing" {
+		// the victim's source open and the requester's open race on the real dispatcher
+		vdone := make(chan error, 1)
+		r := run.Rand(fmt.Sprintf("race-%d", idx))
+		w.jitter = [2]time.Duration{time.Duration(r.Intn(300)) * time.Microsecond, time.Duration(r.Intn(300)) * time.Microsecond}
+		go func() {
+			time.Sleep(w.jitter[0])
+			vdone <- w.victimListenOpen()
+		}()
+		time.Sleep(w.jitter[1])
+		w.open(rq, req)
+		if err := <-vdone; err != nil {
+			return fail("racing victim listen: %v", err)
+		}
+	} else {
+		w.open(rq, req)
+	}
 	obs.Ack = c04AckStr(rq.ack)
 	obs.SendErr = rq.err
+	obs.VictimBridgeSeen = strings.Contains(rq.err, "existing bridge")
+	obs.VictimStartedFirst = w.jitter[0] < w.jitter[1]
 	w.logf("requester open %+v: ack=%s err=%q", *req, obs.Ack, rq.err)
 	entitled, _, _ := c04Policy(cell)
 	admittedByAck := c04Ok(rq)
@@ -625,8 +663,8 @@ func c04RunCell(t *testing.T, run *vk.Run, cell c04Cell, idx int) (obs c04Obs, o
 				return fail("late victim target: %v", err)
 			}
 		}
-	case "waiting", "remote":
-		if !legit && cell.MapState == "active" {
+	case "waiting", "remote", "racing":
+		if !legit && cell.MapState == "active" && (cell.Tunnel != "racing" || c04Ok(w.vL)) {
 			if err := w.victimTargetOpen(); err != nil {
 				return fail("late victim target: %v", err)
 			}
@@ -773,21 +811,67 @@ func TestVerifC04Matrix(t *testing.T) {
 	run.Floor("cells_not_entitled", 400)
 }
 
+// TestVerifC04Race: the victim's source open and the requester's open are issued
+// concurrently for the same (predictable) tunnel id, so the requester meets the
+// dispatcher in whichever state the race produces (no bridge yet / bridge just
+// registered). Verdicts are order-independent: an unentitled requester must be refused
+// in every interleaving.
+func TestVerifC04Race(t *testing.T) {
+	run := vk.Start(t, "C04", "race")
+	defer run.Finish()
+	run.Rule("seeded draws of (mapping kind, mapping state, identity, credential) with tunnel-state=racing: victim source open and requester open run concurrently with seeded 0-300us start offsets; distinct = cell x which side the dispatcher served first (observed)")
+	r := run.Rand("cells")
+	n := run.Pick(150, 3000)
+	for i := 0; i < n; i++ {
+		cell := c04Cell{
+			Kind:     c04Kinds[r.Intn(len(c04Kinds))],
+			Tunnel:   "racing",
+			MapState: c04MapStates[r.Intn(len(c04MapStates))],
+			Identity: c04Identities[r.Intn(len(c04Identities))],
+			Cred:     c04Creds[r.Intn(len(c04Creds))],
+		}
+		if r.Intn(3) > 0 {
+			cell.MapState = "active" // the victim can only open while the mapping is active
+		}
+		if cell.Kind == "conncode" && cell.Cred == "id+secret" {
+			cell.Cred = "id"
+		}
+		run.Case(cell.key(), nil)
+		obs, ok := c04RunCell(t, run, cell, 100000+i)
+		if !ok {
+			run.Count("cells_setup_failed", 1)
+			continue
+		}
+		run.Eval(1)
+		run.Count("cells_executed", 1)
+		first := "requester-started-first"
+		if obs.VictimStartedFirst {
+			first = "victim-started-first"
+		}
+		run.Count(first, 1)
+		if obs.VictimBridgeSeen {
+			run.Count("requester_met_existing_bridge", 1)
+		}
+		run.Distinct(cell.key() + "|" + first)
+		if i < 3 {
+			run.Sample(map[string]any{"cell": cell, "observed": obs})
+		}
+		c04Judge(run, cell, obs)
+		if run.Violations() > 20 {
+			break
+		}
+	}
+	run.Floor("cells_executed", int64(n*9/10))
+	run.Floor("cells_not_entitled", int64(n/2))
+}
+
 func TestVerifC04Remote(t *testing.T) {
 	run := vk.Start(t, "C04", "remote")
 	defer run.Finish()
-	run.Rule("same product with tunnel-state=remote: the victim's bridge waits on node-b (real CrossNodeListener on a loopback port, shared storage, routing table), the requester arrives at node-a; thorough tier only (quick runs the keyed/active+revoked slice)")
+	run.Rule("same product with tunnel-state=remote: the victim's bridge waits on node-b (real CrossNodeListener on a loopback port, shared storage, routing table), the requester arrives at node-a and is forwarded over real loopback TCP; every cell is a distinct case")
 	cells := c04Cells([]string{"remote"})
-	if !run.Thorough() {
-		var sl []c04Cell
-		for _, c := range cells {
-			if c.Kind == "keyed" && (c.MapState == "active" || c.MapState == "revoked") {
-				sl = append(sl, c)
-			}
-		}
-		cells = sl
-	}
 	c04RunMatrix(t, run, cells)
+	run.Exhaustive(true)
 	run.Floor("cells_executed", int64(len(cells)))
 	run.Floor("entitled_admitted|tunnel=remote", 1)
 	run.Floor("entitled_saw_peer_data|tunnel=remote", 1)
